@@ -26,6 +26,7 @@ import (
 	"gcverif/internal/hx"
 
 	"github.com/goatcms/goatcore/filesystem"
+	"github.com/goatcms/goatcore/filesystem/filespace/memfs"
 	"github.com/goatcms/goatcore/filesystem/fsloop"
 	"github.com/goatcms/goatcore/verifhook"
 )
@@ -361,6 +362,32 @@ func (f *stubFS) ReadDir(p string) ([]os.FileInfo, error) {
 	return res, nil
 }
 
+// backing builds a real memfs with the same tree: fsloop only calls ReadDir (which the stub answers
+// itself, so that listing order, failing listings and "." / ".." entries are under the harness's
+// control); any other Filespace method the code under test might call goes to this memfs.
+func backing(t *node) filesystem.Filespace {
+	fs, err := memfs.NewFilespace()
+	if err != nil {
+		panic(err)
+	}
+	var rec func(base string, n *node)
+	rec = func(base string, n *node) {
+		for _, k := range n.kids {
+			if k.name == "." || k.name == ".." {
+				continue
+			}
+			if k.dir {
+				fs.MkdirAll(base+k.name, 0777)
+				rec(base+k.name+"/", k)
+			} else {
+				fs.WriteFile(base+k.name, []byte(k.name), 0644)
+			}
+		}
+	}
+	rec("", t)
+	return fs
+}
+
 // ---------------------------------------------------------------------------------------------
 // one gated case
 
@@ -493,8 +520,13 @@ func containsErr(errs []error, e error) bool {
 }
 
 // verdict evaluates the clauses of the property on what was observed.  sel is sorted.
+//
+// strictListing: the producers are known to have finished (gated runs wait for the closer), so every
+// listing failure must already be in errs.  In ungated runs a producer that is still running after
+// a kill may fail a listing after Wait returned; there only "a failure happened => errs not empty"
+// is a deterministic consequence of the property.
 func verdict(rec *recorder, sel []string, listFailsExpected int, listErrs []error, errs []error,
-	consumers int, activeAtWait int32, anyFailure bool) string {
+	consumers int, activeAtWait int32, anyFailure bool, strictListing bool) string {
 	rec.mu.Lock()
 	done := append([]string(nil), rec.done...)
 	rec.mu.Unlock()
@@ -522,7 +554,7 @@ func verdict(rec *recorder, sel []string, listFailsExpected int, listErrs []erro
 		}
 	}
 	for _, e := range listErrs {
-		if !containsErr(errs, e) {
+		if strictListing && !containsErr(errs, e) {
 			return "FAIL(listing-error-not-recorded:" + e.Error() + ")"
 		}
 	}
@@ -537,7 +569,7 @@ func verdict(rec *recorder, sel []string, listFailsExpected int, listErrs []erro
 				}
 			}
 		}
-		if len(listErrs) != listFailsExpected {
+		if strictListing && len(listErrs) != listFailsExpected {
 			return "FAIL(listing-failures-missed)"
 		}
 	}
@@ -548,7 +580,7 @@ func runGated(c *gcase) string {
 	sc := newSched()
 	verifhook.Set(sc.hook)
 	defer verifhook.Set(nil)
-	fs := &stubFS{root: c.tree, rootPath: c.root, sc: sc}
+	fs := &stubFS{FS: backing(c.tree), root: c.tree, rootPath: c.root, sc: sc}
 	rec := &recorder{}
 	cfg := c.cfg
 	data := &fsloop.LoopData{Filespace: fs, Consumers: c.n, Producents: 1}
@@ -761,7 +793,7 @@ loopSched:
 	anyFailure := len(rec.cbErrs) > 0 || len(listErrs) > 0
 	doneCopy := append([]string(nil), rec.done...)
 	rec.mu.Unlock()
-	v := verdict(rec, sel, len(listFails), listErrs, errs, c.n, activeAtWait, anyFailure)
+	v := verdict(rec, sel, len(listFails), listErrs, errs, c.n, activeAtWait, anyFailure, true)
 	if killedInSched {
 		return steps + " !killed | killed oracle=" + v
 	}
@@ -984,6 +1016,15 @@ func main() {
 			tier = os.Args[2]
 		}
 		stress(tier)
+	case "hammer":
+		n, _ := strconv.Atoi(os.Args[2])
+		hammer(n)
+	case "stressone":
+		reps := 200
+		if len(os.Args) > 3 {
+			reps, _ = strconv.Atoi(os.Args[3])
+		}
+		stressOneLine(os.Args[2], reps)
 	case "users":
 		n := 200
 		if len(os.Args) > 2 {
